@@ -36,7 +36,7 @@ LEVEL_TEXT = ('exploration: ~1.5*10^4 (quick) / ~1.2*10^5 (thorough) generated r
 LEVEL_NOTE = ('inputs not generated are not covered; transcendental residuals rely on the reference release at high precision; '
               'a solver that turns every success into an exception is reported as inconclusive (class never observed), not as a violation')
 TECHNIQUE = 'runtime result monitor: independent exact / high-precision re-evaluation of every value the root finders return'
-SHARD_TIMEOUT = {'quick': 400, 'thorough': 3000}
+SHARD_TIMEOUT = {'quick': 1800, 'thorough': 7200}
 
 NSHARDS = 16
 COUNTS = {'quick': {'solver': 280, 'bracket': 200, 'md': 48, 'mnewton': 256, 'polyroots': 64, 'multiplicity': 96},
@@ -396,6 +396,11 @@ POLY_KINDS = ['simple', 'simple', 'equalim', 'equalim', 'repeated', 'cluster', '
 DEG_CLASSES = [(1, 3), (4, 8), (9, 14), (15, 20)]
 
 
+def _rat(r, lo, hi):
+    """planted root coordinate: mostly not representable in binary, so that the returned roots carry a final rounding"""
+    return dyadic(r, lo, hi, r.choice([16, 16, 3, 7, 10, 12]))
+
+
 def gen_polyroots_case(r, i):
     kind = POLY_KINDS[i % len(POLY_KINDS)]
     dlo, dhi = DEG_CLASSES[(i // len(POLY_KINDS)) % 4]
@@ -408,20 +413,20 @@ def gen_polyroots_case(r, i):
     roots = []      # [re, im, mult]  im > 0: conjugate pair;  for complexcoef: single complex roots
     d = 0
     R = 16 if (deg <= 8 and r.random() < 0.3) else 4          # root magnitudes
-    eqb = dyadic(r, Fr(1, 16), R, 16)
+    eqb = _rat(r, Fr(1, 16), R)
     while d < deg:
         want_pair = kind in ('conjonly', 'equalim') or (kind not in ('realonly', 'complexcoef') and r.random() < 0.5)
         if kind == 'complexcoef':
-            roots.append([dyadic(r, -R, R, 16), dyadic(r, -R, R, 16), 1])
+            roots.append([_rat(r, -R, R), _rat(r, -R, R), 1])
             d += 1
         elif want_pair and deg - d >= 2:
-            a = dyadic(r, -R, R, 16)
-            b = eqb if kind == 'equalim' and r.random() < 0.8 else dyadic(r, Fr(1, 16), R, 16)
+            a = _rat(r, -R, R)
+            b = eqb if kind == 'equalim' and r.random() < 0.8 else _rat(r, Fr(1, 16), R)
             mult = 2 if (kind == 'repeated' and deg - d >= 4 and r.random() < 0.3) else 1
             roots.append([a, b, mult])
             d += 2 * mult
         else:
-            a = dyadic(r, -R, R, 16)
+            a = _rat(r, -R, R)
             if kind == 'cluster' and roots:
                 a = roots[-1][0] + Fr(1, r.choice([64, 256, 1024]))
             mult = min(deg - d, r.randint(2, 3)) if (kind == 'repeated' and r.random() < 0.4) else 1
@@ -558,6 +563,8 @@ def run_bracket(mp, rec, spec):
     ident = ('bracket', solver, spec['fam'], repr(spec['prob']), p, spec['a'], spec['b'], spec['tolk'], spec['maxsteps'])
     sa, sb = prob.sign_at(a, p), prob.sign_at(b, p)
     genuine = sa * sb < 0
+    if genuine:
+        rec.cls('%s/genuine-bracket-attempted' % solver)
     with at_prec(mp, p):
         f = prob.tree_f(mp, log)
         try:
@@ -1010,8 +1017,9 @@ def required(agg, tier):
         if not cl.get('%s/returned' % s):
             miss.append('solver %s never returned a value (nothing to verify)' % s)
     for s in BRACKET_SOLVERS:
-        if not cl.get('%s/bracket-checked' % s):
-            miss.append('no genuine-bracket result observed for %s' % s)
+        got, tried = cl.get('%s/bracket-checked' % s, 0), cl.get('%s/genuine-bracket-attempted' % s, 0)
+        if not got or got < 0.2 * tried:
+            miss.append('bracketing solver %s returned a result for only %d of %d genuine brackets (< 20%%): containment not observed' % (s, got, tried))
     ev = agg['events']
     for name in ('findroot returned values re-evaluated', 'bracket containment decided (genuine bracket)',
                  'mnewton problems with planted root of multiplicity m run', 'polyroots results checked',
